@@ -87,6 +87,7 @@ type world struct {
 	postLogout string
 	endSession bool
 	esQuery    url.Values // parameters the published end-session endpoint carries itself
+	otherRouter http.Handler // another middleware instance of the same process with templated headers of its own (not part of the model)
 	grace    int
 	logout   string
 	snaps    []jar
@@ -242,6 +243,9 @@ func newWorld(sc int, rng interface{ Intn(int) int }) *world {
 				{name: "X-Tpl-Group", text: "first={{.Claims.sub}};{{index .Claims.groups 0}}"}, {name: "X-Tpl-Sub", text: "{{.Claims.sub}}"}}
 		}
 	}
+	if T.prop == "C10" && sc%4 == 1 { // a single templated header, and one that yields nothing for most users
+		w.tmpls = []tmplCfg{{name: "X-Tenant-ID", text: "{{.Claims.org.id}}"}}
+	}
 	for i := range w.tmpls {
 		// (a template the administrator got wrong does not parse: such a header is never rendered — and, being a configured
 		// templated header, a client-supplied value under its name must not reach the downstream handler either)
@@ -301,6 +305,25 @@ func (w *world) addInstance() {
 	w.downs = append(w.downs, d)
 	w.cur = len(w.insts) - 1
 	w.rec(M{"op": "inst", "i": w.cur})
+}
+
+// otherRouterServes: a second router of the same process - same provider and session key, templated headers of its own (another
+// name, as many as this one has) - forwards one request of the current browser. It is not part of the model: what it does must
+// not matter to the instance under test. (Only used while the session's token is far from expiry: no refresh is triggered.)
+func (w *world) otherRouterServes() {
+	if w.otherRouter == nil {
+		w.otherRouter = newInstance(w.p, &down{}, func(c *oidc.Config) {
+			w.cfgMod(c)
+			c.Headers = nil
+			for i := range w.tmpls {
+				c.Headers = append(c.Headers, oidc.TemplatedHeader{Name: fmt.Sprintf("X-Other-Router-%d", i), Value: "{{.Claims.sub}}"})
+			}
+		})
+	}
+	req := httptest.NewRequest("GET", "http://app.test/other-router", nil)
+	w.jars[w.b].addTo(req)
+	w.otherRouter.ServeHTTP(httptest.NewRecorder(), req)
+	T.stat("handler.other-router-requests")
 }
 
 // the checking provider: a code is honoured once, with the redirect_uri and (PKCE) the verifier of its authorization request
